@@ -5,7 +5,13 @@ proof gate (coq/Props/C08.v: ordering/sign logic of correlation_function and _te
             to the dense <bra|O|ket> built with numpy.kron from the documentation operators (oracle)
             states without charge, with U(1), Z_2 and Z_3 charges (clock sites, Sz / N modulo 3); term lists mix charged and
             uncharged terms; the measurement functions are enumerated by reflection, coverage table function x charge type in the evidence
-  env       MPSEnvironment with bra != ket
+  options   (part of the stream state) every documented option of the measurement methods drawn from its option space: Renyi index n in
+            {default, 1, 2, 0.5, 3, inf} of entanglement_entropy / _segment / _segment2 / mutinf_two_site, bonds, for_matrix_S (matrix S),
+            segment shapes, first_site, max_range, by_charge, bond, target / charge_sector / return_charges of correlation_length(2), shift of
+            overlap_translate_finite, autoJW=False / opstr / default offsets of the term correlation functions ...; the runner logs the
+            arguments of every call that was compared with its dense value; all public methods and their parameters are read by reflection and
+            a method / parameter that is neither reached with all required value classes (OPTION_SPACE) nor classified is a failure
+  env       MPSEnvironment with bra != ket (incl. full_contraction)
   overlap   finite (norms, ignore_form) and infinite (dominant eigenvalue of the dense transfer matrix)
   ops_list  _term_to_ops_list  vs  Model/JW.v term_to_ops_list (vm_compute)
   corr_words  per-site operator words of Model/Corr.v (computed inside Coq) -> dense kron -> compared with correlation_function
@@ -1337,6 +1343,8 @@ def main(ctx):
     ctx.assumptions += [
         'C08 dense reference: the state vector is recomputed with numpy from the B tensors and singular values the MPS object holds '
         '(windows S[i0] B[i0]..B[i0+n-1] for segment and infinite MPS); canonical form of the generated states is assumed (C07/C09)',
+        'C08 entropies: eigenvalues below 1e-16 of the dense reduced density matrices are dropped; tolerance 1e-8 (1e-6 for Renyi index n < 1, where '
+        'rounding-error eigenvalues e contribute e^n); correlation lengths 1e-6',
         'C08 not modelled in Coq: contraction numerics, LP/RP environments, TransferMatrix eigenvectors (oracle only, 1e-10 / 1e-8 infinite)',
         'C08 Coq model: operator names are abstract letters with a need_JW flag; local relations JW^2=1, JW f = -f JW are those proved per site table in C12',
     ]
@@ -1348,6 +1356,8 @@ def main(ctx):
 RULE = ('state: one case per (state, measurement call); states: finite L=2-7 (SpinHalf/Spin-1/Fermion/SpinHalfFermion/Boson/Clock/mixed, '
         'no / U(1) / Z_2 / Z_3 charges (clock sites, Sz or N modulo 3), random entangled, optionally compressed to chi 2-3), segments cut '
         'out of finite states, infinite unit cells 1-3 (without charges: random tensors; with charges: random charge-conserving circuits); '
+        'every state additionally with the entropy / spectrum / mutual information / correlation length / translation calls of '
+        'gen_option_measurements (option values in turn, so that every run reaches all of them); '
         'term_list_correlation_function_right: non-trivial when additionally some product of a left and a right term is non-zero; '
         'non-trivial when the state has a bond dimension > 1 and the call did not raise; env: same with a different random bra; '
         'ops_list/corr_words: random terms / (i, j, opstr, str_on_first) tuples; sample_loop: one case per sample_measurements call on an '
